@@ -1,5 +1,17 @@
 """Which properties are claimed (a check is registered only once it is quiet on the unchanged tree)."""
+def _c(id, text, note, technique):
+    return {"id": id, "text": text, "ref": f"DESIGN.md section 3 {id}", "note": note, "technique": technique}
+
+
 CHECKS = [
+    _c("C04",
+       "Generated-input search over tree shapes x numberings x start nodes x callback modes x entry points with recording callbacks; oracle derived from parent pointers (exactly-once, parent's value passed down, children's values passed up as a multiset, visit set = subtree, return value). Depth handled by 10^4-10^5-node chains and by lowering the recursion limit around 3000-deep traversals. Exploration, not proof.",
+       "Trusted: the reference subtree/children computation in vlib/models.py; sibling visiting order is unspecified.",
+       "property-based testing (Hypothesis): recording callbacks vs parent-pointer reference model; recursion-limit probe"),
+    _c("C05",
+       "Generated-input search over trees with extra columns under permuted numberings, as Tree / DataFrame (arbitrary distinct ids, root anywhere) / SWC text; oracle = tag-based bijection preserving parent relation and all columns, pid < id, purity of sort_nodes vs in-place sort_nodes_, re-sorting stays a relabelling. Exploration, not proof.",
+       "Trusted: unique tag column identifies nodes across renumbering.",
+       "property-based testing (Hypothesis): relabelling-invariance oracle through unique tags"),
     {"id": "C02",
      "text": "Generated-input search: SWC texts assembled from the line grammar with exactly known rational values, read through every source kind/encoding/option; oracle = the generator's own table (exact equality) for valid texts, 'must raise' for texts with injected malformed lines or an undecodable byte, tag-based isomorphism for sort_nodes. No counterexample among the generated cases; this is exploration, not proof.",
      "ref": "DESIGN.md section 3 C02",
